@@ -992,8 +992,12 @@ def history_level(rng, tier, st):
 
 
 # ---------------------------------------------------------------------------------------------------------------------
-# the histories of cache_reuse_refuted replayed on the implementation: at function level (two requests, equal keys,
-# one differing input) and through the real compiler (vela.main on a generated model, in a fresh process)
+# two-request histories (equal weight tensor, one differing input) replayed on the implementation, at function level and
+# through the real compiler (vela.main on a generated model, in a fresh process):
+#  * ifm_bitdepth, op_type_transpose_flip: in the key since repo commit 845322f -- regression probes, must be misses
+#    (cache_reuse_old_key_refuted is the statement about the old key); VIOLATION with the old keys if the defect returns
+#  * accelerator_ncores, accelerator_ublock: still omitted (key_omits, cache_reuse_refuted): stale at function level, but a
+#    compilation has one architecture and compiler_driver clears the caches per compilation, so not reachable: evidence only
 def witness_history(field):
     base = dict(kind="conv", accel="ethos-u55-128", wshape=[3, 3, 16, 16], ifm_dtype="int8", wdtype="int8", per_channel=False, wzp=0, wzp_np=False,
                 bias_dtype="int32", bd=16, nbias=16, wseed=3, bseed=4, sseed=5, wmode="rand", bmode="rand", ifm_scale=0.05, ofm_scale=0.1,
@@ -1197,8 +1201,10 @@ def d2_level(tier, st):
     results = compiles.run_all(jobs, timeout=900)
     cw_args, cw_meta, dma_args, dma_meta = [], [], [], []
     d2 = dict(compilations=0, conv_like_ops=0, weight_dmas=0, scale_records=0, weight_sections_decoded=0, buffered_ops=0, two_core_ops=0,
-              separate_scale_tensor_ops=0)
+              separate_scale_tensor_ops=0, single_weight_buffers=0, single_weight_buffers_multi_slice=0, single_buffer_size_is_model=0,
+              double_weight_buffers=0, double_buffer_sizes_are_model=0)
     bad = None
+    buf_rows = []
     for r in results:
         if r["status"] != "ok":
             continue
@@ -1210,6 +1216,19 @@ def d2_level(tier, st):
             match = [j for j, n2 in enumerate(art["npu"]) if n2["words"] == stream["words"]]
             flash = bytes(art["npu"][match[0]]["flash"]) if match and art["npu"][match[0]]["flash"] is not None else None
             nc = stream["ncores"]
+            by_in = {}
+            for op in stream["ops"]:
+                cmd = op.get("cmd")
+                if cmd and cmd.get("kind") == "dma" and cmd.get("encoded_ranges"):
+                    e = by_in.setdefault(cmd["in"]["name"], dict(names=[], cmd=cmd))
+                    if (cmd["out"]["name"], cmd["out"]["storage_size"]) not in e["names"]:
+                        e["names"].append((cmd["out"]["name"], cmd["out"]["storage_size"]))
+            for name, e in by_in.items():
+                rs0 = e["cmd"]["encoded_ranges"]
+                depths = sorted(set(rr[0][1] for rr in rs0))
+                sizes = [sum(rr[3] + rr[4] for rr in rs0 if rr[0][1] == x) for x in depths]
+                buf_rows.append((dict(net=r.get("net_name"), seed=r["job"]["seed"]), e["names"], e["cmd"]["in"]["storage_size"],
+                                 max(sizes[0::2] or [0]), max(sizes[1::2] or [0]), sizes))
             for opi, op in enumerate(stream["ops"]):
                 cmd = op.get("cmd")
                 if not cmd:
@@ -1308,6 +1327,19 @@ def d2_level(tier, st):
                         why = "weight DMA range not 16-byte aligned"
                 if why and bad is None:
                     bad = (where, why, r)
+    # the weight buffers of the compiled models: a single buffer holds every slice, buffer k of a double buffer the slices
+    # of parity k; their sizes against the model (single_buffer_size / double_buffer_sizes recomputed from the ranges)
+    if st["okx"] and buf_rows:
+        outs = models.run("buffer_sizes", [[blen, db0, db1] for _, _, blen, db0, db1, _ in buf_rows], exe_name=EXE)
+        for (where, names, blen, db0, db1, sizes), (mx, single) in zip(buf_rows, outs):
+            st["model_cases"] += 1
+            if len(names) == 1:
+                d2["single_weight_buffers"] += 1
+                d2["single_weight_buffers_multi_slice"] += len(sizes) > 1
+                d2["single_buffer_size_is_model"] += names[0][1] == single
+            else:
+                d2["double_weight_buffers"] += 1
+                d2["double_buffer_sizes_are_model"] += [x[1] for x in names] == [db0, db1]
     if st["okx"]:
         if cw_args:
             for (where, got), out in zip(cw_meta, models.run_parallel("create_weights", cw_args, exe_name=EXE)):
@@ -1336,8 +1368,8 @@ def run(tier):
         "extraction (ExtrOcamlBasic only) + ocaml/driver.ml for the correspondence runs",
         "the weight codec (encode_weights -> mlw_codec.reorder_encode) is NOT modelled: universally quantified `enc`/`codec` in the theorems "
         "(used only through: length multiple of 16, the fact C07 observes); its bytes are judged per input by the reference decoder",
-        "hand model coq/model/WLayout.v of encode_weight_and_scale_tensor / create_weights / create_dma_op / CompressedWeightCache "
-        "(tied by correspondence, not by translation); hash(str(depth_offsets)) modelled as injective; floats of the scale key as bit patterns",
+        "hand model coq/model/WLayout.v of encode_weight_and_scale_tensor / create_weights / create_dma_op / CompressedWeightCache with the "
+        "seven-field key / the scheduler's single-buffer size (tied by correspondence, not by translation); hash(str(depth_offsets)) modelled as injective; floats of the scale key as bit patterns",
         "quantise_scale / reduced_quantise_scale are inputs of the model (C09's subject); the oracle recomputes them exactly"])
     okx, xlog = vlib.build_extraction(EXE)
     rng = random.Random(vlib.seed())
@@ -1413,7 +1445,7 @@ def run(tier):
         "compiled": st["d2"], "samples": st["samples"], "timing_s": timing,
         "odd_slice_witness_on_model [core d len | code channels | spec channels]*": odd,
         "odd_slice_witness_on_implementation": odd_impl,
-        "cache_refutation_replayed": wit,
+        "two_request_histories_replayed (ifm_bitdepth / flip: regression probes; accelerator: cache_reuse_refuted at function level)": wit,
         "function_level_only_stale_fields (random histories)": sorted(st["stale_fn"]),
     })
     res.assumptions += ["the weight codec returns a multiple of 16 bytes (observed on every call here; C07)",
@@ -1428,7 +1460,7 @@ def run(tier):
     for f in confirmed:
         w = wit[f]
         res.violation({"defect": "weight_cache_key_omits", "field": f},
-                      dict(theorem="cache_reuse_refuted / key_omits (coq/props/C08.v)", function_level=w, how_reached=PIPELINE_ROUTE[f],
+                      dict(theorem="cache_reuse_old_key_refuted / key_contains / key_omits (coq/props/C08.v)", function_level=w, how_reached=PIPELINE_ROUTE[f],
                            replay_cmd="cd /verif && /venv/bin/python tools/checks/c08.py --pipeline %s %s build/c08_pipeline/%s" % (
                                pipeline_scenarios()[f][0], ",".join(pipeline_scenarios()[f][1]), pipeline_scenarios()[f][0])),
                       "CompressedWeightCache reuses an encoding although %s differs (key omits it): %s; the stale tensor reaches the command stream "
